@@ -24,11 +24,20 @@
                     (op = 0 k read | 1 bytes write | 2 flush | 3 close); trace: see NegOps.v
    case (mode 8, a request between two real nodes whose request-response protocols have fallback
                     names): 8 transport pool cfgA cfgB k   (see Sub.v)
+   case (mode 9, differential against the reference implementation, rust-libp2p's
+                    multistream-select 0.13): 9 dkind lkind lazy pool ds ls sched dl_r dl_w ld_r ld_w dpay lpay
+                    (kind of an end: 0 litep2p's select future, 1 the reference's select future,
+                    2 / 3 litep2p's TCP / WebSocket negotiate_protocol; names must be valid UTF-8 — the
+                    reference takes `&str` —, an optimistic dialer's payload ASCII); trace as mode 0
+                    (first-occurrence indices for kinds 2 / 3). The model of BOTH ends is the model of
+                    litep2p's futures: the reference is predicted to be byte-for-byte the same machine on
+                    this domain.
    case (mode 2, message-based dialer):    2 pool proto fallbacks ops   (op = 0 payload | 1)
    trace (mode 2):  1 (0 msg | 1) then per op: (0 code) for register_response, (1 0|1 msg|2) for
                     propose_next_fallback *)
 From Coq Require Import List NArith Bool.
 From V.common Require Import Wire.
+From V.common Require Protobuf.
 From V.C03 Require Import Model Timed NegOps.
 From V.C03 Require Fallback Sub.
 Import ListNotations.
@@ -227,9 +236,46 @@ Definition run7 (t : list N) : list N :=
   | None => [0]
   end.
 
+(* ---- mode 9: the reference implementation at one end or at both *)
+Definition text_name (n : name) : bool := Protobuf.utf8_ok n.
+Definition ascii_bytes (b : bytes) : bool := forallb (fun x => x <? 128) b.
+
+Definition decode9 (t : list N) : option (N * N * ncase) :=
+  match t with
+  | dk :: lk :: body =>
+      match pall p_case0 body with
+      | Some c =>
+          if (dk <=? 3) && (lk <=? 3) && forallb text_name (c_ds c) && forallb text_name (c_ls c) &&
+             (negb (c_lazy c) || ((dk <? 2) && ascii_bytes (c_dpay c)))
+          then Some (dk, lk, c) else None
+      | None => None
+      end
+  | _ => None
+  end.
+
+Definition trace9 (dk lk : N) (c : ncase) (s : sys) (status : N) : list N :=
+  let dres := t_res (s_d s) in
+  let lres := t_res (s_l s) in
+  [1; status;
+   fst dres; (if (fst dres =? 0) && (2 <=? dk) then canon_idx (c_ds c) (snd dres) else snd dres);
+   fst lres; (if (fst lres =? 0) && (2 <=? lk) then canon_idx (c_ls c) (snd lres) else snd lres);
+   t_end (s_d s); t_end (s_l s)] ++
+  enc_bytes (t_got (s_d s)) ++ enc_bytes (t_got (s_l s)) ++
+  enc_bytes (p_total (s_dl s)) ++ enc_bytes (p_total (s_ld s)) ++
+  enc_bytes (p_buf (s_dl s)) ++ enc_bytes (p_buf (s_ld s)).
+
+Definition run9 (l t : list N) : list N :=
+  match decode9 t with
+  | Some (dk, lk, c) =>
+      let '(s, status) := run_sys (run_fuel l) (c_sched c) false 0 (sys_init c) in
+      trace9 dk lk c s status
+  | None => [0]
+  end.
+
 Definition run_case (l : list N) : list N :=
   match l with
   | 5 :: t => Fallback.run_fallback t
+  | 9 :: t => run9 l t
   | 6 :: t => run6 l t
   | 7 :: t => run7 t
   | 8 :: t => Sub.run_sub t
@@ -583,9 +629,61 @@ Definition ok7 (c : case7) (tr : list N) : bool :=
   | _ => false
   end.
 
+(* ---- mode 9: the property as in mode 0, and in addition (V1, names in the domain) what each end
+   put on the wire is exactly the LEGAL conversation for these two lists: the dialer's header and
+   its proposals in order up to the first supported one, the listener's header, one `na` per
+   rejected proposal and the confirmation, each followed by the payload once a name is agreed —
+   whichever implementation runs that end. (Peer.v: this is the hypothesis under which litep2p's
+   futures are proved correct against an arbitrary peer.) *)
+Definition wire_of (ms : list msg) : bytes := flat_map (fun m => frame (encode_msg m)) ms.
+
+(* the proposals a dialer makes against a listener supporting `ls`, and whether the last is accepted *)
+Fixpoint dial_props (ls ds : list name) : list name * bool :=
+  match ds with
+  | [] => ([], false)
+  | p :: t => if supported_b ls p then ([p], true)
+              else let '(ps, a) := dial_props ls t in (p :: ps, a)
+  end.
+Fixpoint answers (ls ps : list name) : list msg :=
+  match ps with
+  | [] => []
+  | p :: t => (if supported_b ls p then MProto p else MNa) :: answers ls t
+  end.
+
+Definition legal_dialer_wire (c : ncase) : bytes :=
+  match c_ds c with
+  | [] => []
+  | _ :: _ =>
+      let '(ps, acc) := dial_props (c_ls c) (c_ds c) in
+      wire_of (MHeader :: map MProto ps) ++ (if acc then c_dpay c else [])
+  end.
+Definition legal_listener_wire (c : ncase) : bytes :=
+  match c_ds c with
+  | [] => []
+  | _ :: _ =>
+      let '(ps, acc) := dial_props (c_ls c) (c_ds c) in
+      wire_of (MHeader :: answers (c_ls c) ps) ++ (if acc then c_lpay c else [])
+  end.
+
+Definition ok9 (c : ncase) (o : obs0) : bool :=
+  ok0 c o &&
+  (if negb (c_lazy c) && forallb wf_name (c_ds c) && forallb wf_name (c_ls c)
+   then bytes_eqb (o_dwrote o) (legal_dialer_wire c) && bytes_eqb (o_lwrote o) (legal_listener_wire c)
+   else true).
+
 Definition prop_ok (case trace : list N) : bool :=
   match case with
   | 5 :: t => Fallback.ok_fallback t trace
+  | 9 :: t =>
+      match decode9 t, trace with
+      | Some (_, _, c), 1 :: tb =>
+          match pall p_obs0 tb with
+          | Some o => ok9 c o
+          | None => false
+          end
+      | None, [0] => true
+      | _, _ => false
+      end
   | 6 :: _ :: td :: tl :: body =>
       match decode6 body, trace with
       | Some c, 1 :: tb =>
